@@ -78,6 +78,7 @@ partial def parseTy : Toks → Option (Ty × Toks)
         let (t, r) ← parseTy r
         pure (.box n t, r)
       | _ => none
+    | "wrap" => (parseTy rest).map fun (t, r) => (.wrap t, r)
     | "range" => (parseTy rest).map fun (t, r) => (.range t, r)
     | "bits" => match rest with
       | p :: o :: r => do
